@@ -6,7 +6,7 @@ use serde::{Deserialize, Serialize};
 use syltmodel::ast::*;
 use syltmodel::gen::{Gen, GenCfg};
 use syltmodel::plant;
-use syltmodel::print::{Plan as SurfacePlan, STD_NAMES, SYLT_KEYWORDS};
+use syltmodel::print::Plan as SurfacePlan;
 use syltmodel::scope;
 use vcore::{compile, Check, Labels, Outcome, Plan, Project, Stats, Step, Tape, Tier, Verdict};
 
@@ -42,41 +42,7 @@ fn binders_cfg(thorough: bool) -> GenCfg {
     cfg
 }
 
-/// maximal legal shadowing, greedily: every binder tries to take the name of another binder
-fn shadow_plan(t: &mut Tape, p: &Program) -> (Vec<String>, usize) {
-    let mut names: Vec<String> = p.vars.iter().map(|v| v.name.clone()).collect();
-    let ren = scope::renamable(p);
-    if ren.is_empty() {
-        return (names, 0);
-    }
-    let mut renamed = 0;
-    // a few fresh-but-odd names as well
-    let extra = ["x", "i", "tmp", "value", "a1", "_q", "n"];
-    let rounds = ren.len() * 2;
-    for _ in 0..rounds {
-        let b = *t.pick(&ren);
-        let cand: String = if t.chance(1, 6) {
-            extra[t.below(extra.len())].to_string()
-        } else {
-            let o = *t.pick(&ren);
-            if o == b {
-                continue;
-            }
-            names[o as usize].clone()
-        };
-        if cand == names[b as usize] || SYLT_KEYWORDS.contains(&cand.as_str()) || STD_NAMES.contains(&cand.as_str()) {
-            continue;
-        }
-        // type / variant names start with an upper-case letter, case captures with a lower-case one
-        let old = std::mem::replace(&mut names[b as usize], cand);
-        if scope::check(p, &names).ok {
-            renamed += 1;
-        } else {
-            names[b as usize] = old;
-        }
-    }
-    (names, renamed)
-}
+use syltmodel::scope::shadow_plan;
 
 impl Check for C09 {
     type Case = Case;
